@@ -587,3 +587,155 @@ func TestQueuedCallersKeepTheirTimeout(t *testing.T) {
 		}
 	}
 }
+
+// ---------------------------------------------------------------------------
+// the same property over a real TCP connection (the clients treat *net.TCPConn specially in places): a device model behind a
+// loopback listener, one client shared by several goroutines, every caller cancelling its context as soon as its call has
+// returned (the usual `defer cancel()`), some requests answered with exceptions
+
+type realCase struct {
+	Workers int    `json:"workers"`
+	Calls   int    `json:"calls"`
+	Seed    uint64 `json:"seed"`
+	// DelayUs: the device takes this long to answer (another caller is waiting meanwhile)
+	DelayUs int `json:"delay_us"`
+	// ExcEvery k > 0: every k-th call (by worker+call index) goes to a unit the device answers with exception 2
+	ExcEvery int `json:"exc_every"`
+}
+
+// serveModel answers Modbus TCP requests on l with the device model until l is closed.
+func serveModel(l net.Listener, dev *device.Device, delay time.Duration) {
+	var mu sync.Mutex
+	for {
+		conn, err := l.Accept()
+		if err != nil {
+			return
+		}
+		go func(conn net.Conn) {
+			defer conn.Close()
+			hdr := make([]byte, 6)
+			for {
+				if _, err := io.ReadFull(conn, hdr); err != nil {
+					return
+				}
+				body := make([]byte, int(hdr[4])<<8|int(hdr[5]))
+				if _, err := io.ReadFull(conn, body); err != nil {
+					return
+				}
+				frame := append(append([]byte(nil), hdr...), body...)
+				mu.Lock()
+				var reply []byte
+				if len(body) > 0 && body[0] >= 200 {
+					d := device.New(1)
+					d.ForceException = 2
+					reply = d.Answer(spec.TCP, frame)
+				} else {
+					reply = dev.Answer(spec.TCP, frame)
+				}
+				mu.Unlock()
+				if delay > 0 {
+					time.Sleep(delay)
+				}
+				if reply != nil {
+					if _, err := conn.Write(reply); err != nil {
+						return
+					}
+				}
+			}
+		}(conn)
+	}
+}
+
+func runReal(c realCase) harness.Result {
+	l, err := net.Listen("tcp", "127.0.0.1:0")
+	if err != nil {
+		return harness.Fail("harness: listen: %v", err)
+	}
+	defer l.Close()
+	dev := device.New(c.Seed)
+	go serveModel(l, dev, time.Duration(c.DelayUs)*time.Microsecond)
+	// a generous read timeout (replies take at most a millisecond): on a correct library it never expires
+	cl := modbus.NewTCPClientWithConfig(modbus.ClientConfig{ReadTimeout: 5 * time.Second, WriteTimeout: 5 * time.Second})
+	cctx, ccancel := context.WithTimeout(context.Background(), 5*time.Second)
+	err = cl.Connect(cctx, l.Addr().String())
+	ccancel()
+	if err != nil {
+		return harness.Fail("harness: connect to the loopback device: %v", err)
+	}
+	defer cl.Close()
+	errs := make([]error, c.Workers)
+	var wg sync.WaitGroup
+	start := make(chan struct{})
+	for w := 0; w < c.Workers; w++ {
+		wg.Add(1)
+		go func(w int) {
+			defer wg.Done()
+			<-start
+			for m := 0; m < c.Calls; m++ {
+				unit := uint8(1 + w)
+				isExc := c.ExcEvery > 0 && (w+m)%c.ExcEvery == 0
+				if isExc {
+					unit = uint8(200 + w)
+				}
+				addr, qty := uint16(100*w+m), uint16(1+(w+m)%5)
+				req, err := packet.NewReadHoldingRegistersRequestTCP(unit, addr, qty)
+				if err != nil {
+					errs[w] = fmt.Errorf("harness: %v", err)
+					return
+				}
+				ctx, cancel := context.WithCancel(context.Background())
+				resp, err := cl.Do(ctx, req)
+				cancel() // the call is over: what happens to its context now must not matter to anybody
+				if isExc {
+					var e *packet.ErrorResponseTCP
+					if !errors.As(err, &e) || e.Code != 2 || e.UnitID != unit || e.TransactionID != req.TransactionID {
+						errs[w] = fmt.Errorf("goroutine %d call %d (unit %d, answered with exception 2): got response %v, error %v", w, m, unit, resp, err)
+						return
+					}
+					continue
+				}
+				if err != nil {
+					errs[w] = fmt.Errorf("goroutine %d call %d (unit %d, %d registers at %d): %v", w, m, unit, qty, addr, err)
+					return
+				}
+				r, ok := resp.(*packet.ReadHoldingRegistersResponseTCP)
+				want := dev.RegBytes(device.Holding, int(addr), int(qty))
+				if !ok || r.UnitID != unit || r.TransactionID != req.TransactionID || !bytes.Equal(r.Data, want) {
+					errs[w] = fmt.Errorf("goroutine %d call %d (unit %d, %d registers at %d, tx %d): received %x, the reply to this request carries %x", w, m, unit, qty, addr, req.TransactionID, resp.Bytes(), want)
+					return
+				}
+			}
+		}(w)
+	}
+	close(start)
+	done := make(chan struct{})
+	go func() { wg.Wait(); close(done) }()
+	select {
+	case <-done:
+	case <-time.After(60 * time.Second):
+		return harness.Fail("calls on a client shared by %d goroutines over loopback TCP did not finish within 60 s", c.Workers)
+	}
+	for _, e := range errs {
+		if e != nil {
+			return harness.Result{Err: e, NonTrivial: true}
+		}
+	}
+	labels := []string{fmt.Sprintf("real-tcp-workers:%d", c.Workers)}
+	if c.ExcEvery > 0 {
+		labels = append(labels, "with-exception-replies")
+	}
+	return harness.Result{NonTrivial: c.Workers >= 2 && c.Calls >= 2, Labels: labels, Weight: int64(c.Workers * c.Calls)}
+}
+
+var chkReal = harness.Define("shared-client-over-loopback-tcp",
+	func(t *rapid.T) realCase {
+		return realCase{
+			Workers:  rapid.IntRange(2, 8).Draw(t, "workers"),
+			Calls:    rapid.IntRange(5, 40).Draw(t, "calls"),
+			Seed:     rapid.Uint64().Draw(t, "seed"),
+			DelayUs:  rapid.SampledFrom([]int{0, 50, 200, 1000}).Draw(t, "delay_us"),
+			ExcEvery: rapid.SampledFrom([]int{0, 2, 3, 5}).Draw(t, "exc_every"),
+		}
+	}, runReal)
+
+func TestRealTCP(t *testing.T) { chkReal.Rapid(t, harness.Pick(25, 600)) }
